@@ -718,4 +718,25 @@ def scale_covers(ctx):
     return res
 
 
-RULES = [scale_covers, c04_chief_ray, c01_arg_wiring_rule, c01_init_stores, scale_homogeneous, scale_system, scale_relies_on_thickness_edit, mirror, w_flow, dummy_identity]
+def c03_xy_exchange(ctx):
+    """shared with C03: exchanging x and y (a re-description of a rotationally
+    symmetric lens) exchanges the x and y parts of every launched ray"""
+    from .C03 import xy_exchange as _r
+    return _r(ctx)
+
+
+def c03_registry(ctx):
+    """shared with C03: the vignetting table is a function of the field
+    magnitude, so a field list written in the mirror image (negative y)
+    keeps its vignetting factors"""
+    from .C03 import registry as _r
+    return _r(ctx)
+
+
+def c01_insertion(ctx):
+    """shared with C01: inserting a dummy surface into an existing lens"""
+    from .C01 import insertion as _r
+    return _r(ctx)
+
+
+RULES = [c01_insertion, c03_registry, c03_xy_exchange, scale_covers, c04_chief_ray, c01_arg_wiring_rule, c01_init_stores, scale_homogeneous, scale_system, scale_relies_on_thickness_edit, mirror, w_flow, dummy_identity]
